@@ -99,7 +99,7 @@ def run(ctx, factor):
         if m[0] != "unsup" and (m[0] != ref[i][0] or (m[0] == "ok" and m[1] != ref[i][1])):
             rep.disagree("T6-single-op", {"op": o}, ref[i], m)
     maxlen = 6 if ctx.tier == "quick" else 10
-    for _ in range(ctx.budget(40, 600) * factor):
+    for _ in range(ctx.budget(40, 1500) * factor):
         seq = [g.r.randrange(len(ops)) for _ in range(g.int(2, maxlen))]
         ctx.driver.call({"op": "reset"})
         for pos, i in enumerate(seq):
